@@ -185,6 +185,27 @@ INT_NUMS = [n for n in NUMS if n['t'] == 'int' or
 QUANTA = ['1/8', '1/100', '1/2', '1/1000', '1']
 
 
+def fresh_symbol(model: RefDir, prefix, n, r):
+    """A fresh, legal unit symbol.  Symbols are arbitrary non-empty strings:
+    blanks ('ft lb' style), non-ASCII letters, digits first, a first word
+    that is another unit's symbol."""
+    k = r % 12
+    base = f'{prefix}{n}'
+    if k == 0:
+        return f'{base} x'
+    if k == 1:
+        return f'µ{base}'
+    if k == 2:
+        return f'{n}{prefix}'
+    if k == 3 and model.uorder:
+        return f'{model.uorder[r % len(model.uorder)]} {base}'
+    if k == 4:
+        return f'°{base}'
+    if k == 5:
+        return f'{base}.b-c'
+    return base
+
+
 def resolve(model: RefDir, op):
     """Deterministically turn an intent (kind, r0, r1, ...) into a concrete
     action for the current model state, or None (recorded no-op).
@@ -193,11 +214,13 @@ def resolve(model: RefDir, op):
     r = op[1:] + [0] * 12
     n = model.fresh()
     types = model.order
+    deco = r[10] * 31 + r[11]
     if kind == 'base_type':
         ref = bool(r[0] % 4)            # 3 of 4 have a reference unit
         q = QUANTA[r[1] % len(QUANTA)] if ref and r[2] % 5 == 0 else None
         return {'a': 'base_type', 'name': f'T{n}',
-                'ref_sym': f'r{n}' if ref else None, 'quantum': q,
+                'ref_sym': fresh_symbol(model, 'r', n, deco) if ref else None,
+                'quantum': q,
                 'expect': 'accept'}
     if kind in ('derived_type', 'dup_dimension'):
         cands = [t for t in types]
@@ -223,7 +246,7 @@ def resolve(model: RefDir, op):
         ref_sym = None
         quantum = None
         if all_ref and symmode != 0:
-            ref_sym = f'r{n}'
+            ref_sym = fresh_symbol(model, 'r', n, deco)
             if r[9] % 6 == 0:
                 quantum = QUANTA[r[10] % len(QUANTA)]
         if not dim:
@@ -258,7 +281,8 @@ def resolve(model: RefDir, op):
             m = num_value(k) * model.units[parent]['factor'] / t['quantum']
             if m.denominator != 1:
                 return None
-        return {'a': 'scaled_unit', 'type': tn, 'sym': f'u{n}',
+        return {'a': 'scaled_unit', 'type': tn,
+                'sym': fresh_symbol(model, 'u', n, deco),
                 'parent': parent, 'k': k, 'via': ['rmul', 'mul'][r[4] % 2]
                 if k['t'] != 'prefix' else 'rmul', 'expect': 'accept'}
     if kind == 'price_type':
@@ -274,7 +298,7 @@ def resolve(model: RefDir, op):
         dim = {}
         for x, e in items:
             dim = dim_add(dim, model.types[x]['dim'], e)
-        if dim_key(dim) in model.dims:
+        if not dim or dim_key(dim) in model.dims:
             return None
         return {'a': 'derived_type', 'name': f'D{n}', 'items': items,
                 'style': r[2] % 3, 'ref_sym': None, 'auto_ref': False,
@@ -308,7 +332,7 @@ def resolve(model: RefDir, op):
             return None
         k = None
         nums = []
-        if r[7] % 2 == 0 and model.types[tn]['quantum'] is None:
+        if r[7] % 2 == 0:
             # numeric elements, also with exponents other than 1 (what
             # `term / number` or `number ** -2 * term` produce)
             for j in range(1 + r[9] % 2):
@@ -322,10 +346,8 @@ def resolve(model: RefDir, op):
             if target is None:
                 return None
             expect = 'reject'
-        if model.types[target]['quantum'] is not None:
-            nums = []
-        act = {'a': 'term_unit', 'type': target, 'sym': f'u{n}',
-               'items': items, 'k': k, 'nums': nums, 'spell': r[11] % 4,
+        act = {'a': 'term_unit', 'type': target,
+               'sym': fresh_symbol(model, 'u', n, deco), 'items': items, 'k': k, 'nums': nums, 'spell': r[11] % 4,
                'expect': expect}
         if expect == 'reject':
             act['bad'] = 'wrong_dimension'
@@ -351,7 +373,7 @@ def resolve(model: RefDir, op):
             if u is None:
                 return None
             units.append(u)
-        sym = f'u{n}' if r[6] % 3 else None
+        sym = fresh_symbol(model, 'u', n, deco) if r[6] % 3 else None
         if kind == 'derive_unit':
             return {'a': 'derive_unit', 'type': tn, 'units': units,
                     'sym': sym, 'expect': 'accept' if sym else 'follow'}
@@ -387,7 +409,8 @@ def resolve(model: RefDir, op):
         tn = _pick(cands, r[0])
         if tn is None:
             return None
-        return {'a': 'plain_unit', 'type': tn, 'sym': f'u{n}',
+        return {'a': 'plain_unit', 'type': tn,
+                'sym': fresh_symbol(model, 'u', n, deco),
                 'expect': 'accept'}
     if kind == 'currency_reg':
         code = ISO_CODES[r[0] % len(ISO_CODES)]
